@@ -69,7 +69,16 @@ func VfC04_Redirect() {
 		w := words[nd.Concrete(nd.Choice("word", len(words)))]
 		isAsk := w == "ASK" || w == "Ask"
 		target := []string{a, b}[nd.Concrete(nd.Choice("target", 2))]
-		u.handleRedirection(req, newError(w+" 3999 "+target))
+		slot := []string{"0", "1", "3999", "16383"}[nd.Concrete(nd.Choice("slot", 4))] // every slot number is a valid one
+		if h == hops-1 && nd.Bool("target-unreachable") {
+			// the named node cannot be connected right now: the client gets an error, it is not left waiting
+			u.handleRedirection(req, newError(w+" "+slot+" 10.9.9.9:7000"))
+			nd.Assert(vfDone(req.done) && req.Response().Type == Error, "a redirection to a node that cannot be connected answers the request with an error")
+			nd.Assert(vfTake(clients[a]) == nil && vfTake(clients[b]) == nil, "nothing is sent to another node instead")
+			nd.Cover("unreachable-target")
+			return
+		}
+		u.handleRedirection(req, newError(w+" "+slot+" "+target))
 		other := a
 		if target == a {
 			other = b
